@@ -857,6 +857,8 @@ def gen_index_case(rng):
     """One predicate's clause heads (keys per argument: text or None) and a few call patterns."""
     arity = rng.randint(1, 3)
     consts = CONSTS[:rng.choice([2, 3, 4])]
+    if rng.random() < 0.35:
+        consts = consts[:2] + ['2.5', '"s"', '1']     # float and string constants: other key types of the index
     n = rng.randint(0, 7)
     heads = []
     for _ in range(n):
